@@ -16,7 +16,7 @@
    [Inv c src k st]: the data replicated from c is exactly the first k source payloads, each once and in
    order, and the recorded position is the k-th entry's (absent for k = 0). *)
 From Coq Require Import List NArith Bool Arith Sorted.
-From ZV Require Import Sync.Consts Sync.Model Sync.Proofs.
+From ZV Require Import Sync.Consts Sync.Model Sync.Proofs Sync.Sender Sync.ProofsSender.
 Import ListNotations.
 Open Scope N_scope.
 
@@ -138,6 +138,26 @@ Theorem C19_prefilter_sound : forall st l e,
 Proof. exact prefilter_sound. Qed.
 Print Assumptions C19_prefilter_sound.
 
+(* (7) SAFETY of the composed system sender x receiver (Sync/Sender.v): the source side's send loop (buffer kept and
+       grown on errors, dropped unsent when the remote position fetched at loop start covers it), learner restarts,
+       requests lost before and responses lost after the receiver handled them, the snapshot hand-over
+       (PrepareSnapshot shortcut, NotifyTransferSnap, NotifyApplySnap with or without the checkpoint, the
+       ApplySuccess answer of GetApplySnapStatus), and the receiver's own snapshots, crashes, local writes and status
+       time-outs, interleaved in ANY order.  The data replicated from the source is always exactly its first K
+       entries, each once and in order, the recorded position is the K-th entry's, and what the sender regards as
+       done lies within them: the position never covers an entry whose data is missing.
+       Explicit assumptions (modelled as guards of the events): a restarted learner replays its own raft log from a
+       point not beyond what the receiver covers (its own snapshot waits for the buffered logs); not "normal init"
+       mode (a skipped snapshot advances the position by the operator's decision). *)
+Theorem C19_sender_safety : forall c src evs,
+  c <> 0 -> wf_source c src ->
+  exists K,
+    proj c (r_journal (n_cur (fst (sys_run c src evs)))) = map s_payload (firstn K src) /\
+    synced_at src K (synced_of (n_cur (fst (sys_run c src evs))) c) /\
+    (sd_buf (snd (sys_run c src evs)) <= K)%nat.
+Proof. exact sender_safety. Qed.
+Print Assumptions C19_sender_safety.
+
 (* ---------- non-vacuity and the role of the hypotheses ---------- *)
 
 Definition ex_src : list sentry :=
@@ -194,6 +214,20 @@ Example C19_ex_snap_run :
   synced_of (n_cur (run ex_snap_ops)) 1 = Some (mkSS 3 8 1008) /\
   proj 1 (r_journal (n_cur (run ex_snap_ops))) = proj 1 (r_journal (source_state 1 ex_src)).
 Proof. vm_compute. repeat split; reflexivity. Qed.
+
+
+(* the composed system really moves: feed and send with a lost response (re-send), a learner restart, a snapshot
+   hand-over for the raft snapshot covering 2 entries whose first apply finds no checkpoint, a receiver crash, then
+   the rest: everything arrives, once *)
+Definition ex_evs : list ev :=
+  [EFeed; ESend FRespLost; EFeed; ESend FReqLost; ESenderRestart 1;
+   ENotifyTransfer 2 FNone; ENotifyApply 2 false FRespLost; ENotifyTransfer 2 FNone; ENotifyApply 2 true FNone;
+   ERecv ORestart; ESnapDone 2; EFeed; ESend FNone; ERecv OSnap; ERecv ORestart].
+
+Example C19_ex_sys :
+  r_journal (n_cur (fst (sys_run 1 ex_src ex_evs))) = [(1, 250); (1, 300); (1, 400)] /\
+  sd_buf (snd (sys_run 1 ex_src ex_evs)) = 3%nat.
+Proof. vm_compute. split; reflexivity. Qed.
 
 (* X1: what the well-formedness hypothesis is for.  (a) a source "log" whose term decreases: the later entry
    (term 1, index 6) is dropped for ever after (term 2, index 5) — the filter compares terms first *)
